@@ -445,6 +445,7 @@ def run(ctx):
                       "identity at ratio 1, non-decreasing for ratio >= 1; "
                       "found %s" % (ax, ax, e), node=s)
     ctx.floor("C19-R7", n7, 2, "ratio-based rescale statements")
+    resize_nan_rule(ctx, prog, "C19-R7")
     r9_greedy(ctx, prog)
 
 
@@ -580,3 +581,87 @@ def _iter_base(e):
     while isinstance(e, ast.Call) and e.args:
         e = e.args[0]
     return e
+
+
+def resize_nan_rule(ctx, prog, rule):
+    """resize with an UNKNOWN catalogue psf (sources built from a table
+    without psf columns carry psf_a = psf_b = nan): ratio 1 must still be the
+    identity, and the psf sanity test must not exclude such sources.  The
+    guards of the source are interpreted for nan / positive / non-positive
+    psf values (shared by C19-R7 and C05-R10)."""
+    from ..concrete import Unknown, ev
+    rs = prog.func("cluster.resize")
+    nan = float("nan")
+    parents = {}
+    for p_ in ast.walk(rs.node):
+        for c_ in ast.iter_child_nodes(p_):
+            parents[c_] = p_
+
+    def guards(st):
+        """[(test, branch taken to reach st)]"""
+        out, x = [], st
+        while x in parents:
+            par = parents[x]
+            if isinstance(par, ast.If):
+                out.append((par.test, any(x is b for b in par.body)))
+            x = par
+        return out
+    n = 0
+    # (b) rescale statements at ratio 1
+    for s_ in walk_no_nested(rs.node):
+        if isinstance(s_, ast.Assign) and \
+                isinstance(s_.targets[0], ast.Attribute) and \
+                s_.targets[0].attr in ("a", "b") and \
+                "ratio" in names_in(s_.value):
+            n += 1
+            reached = True
+            for test, branch in guards(s_):
+                if "ratio" not in names_in(test):
+                    continue
+                try:
+                    if bool(ev(test, {"ratio": 1, "None": None})) != branch:
+                        reached = False
+                except Unknown:
+                    pass
+            uses_psf = any(isinstance(x, ast.Attribute) and
+                           x.attr.startswith("psf_")
+                           for x in ast.walk(s_.value))
+            ctx.check(rule, rs, "ratio 1 with unknown psf: " + norm(s_, 60),
+                      not (reached and uses_psf),
+                      "at ratio 1 this statement still evaluates psf**2 * "
+                      "(1 - 1/ratio**2) = nan * 0 = nan for a source whose "
+                      "catalogue psf is unknown (no psf columns): its shape "
+                      "becomes nan and the source is then excluded, so "
+                      "ratio 1 is not the identity and the whole catalogue "
+                      "is dropped", node=s_)
+    # (a) exclusion tests on the psf
+    for iff in walk_no_nested(rs.node):
+        if not isinstance(iff, ast.If):
+            continue
+        psf_attrs = sorted({norm(x) for x in ast.walk(iff.test)
+                            if isinstance(x, ast.Attribute) and
+                            x.attr in ("psf_a", "psf_b")})
+        excl = any(isinstance(st, ast.Assign) and
+                   isinstance(st.targets[0], ast.Subscript) and
+                   isinstance(st.value, ast.Constant) and
+                   st.value.value is False for b in iff.body
+                   for st in ast.walk(b))
+        if not psf_attrs or not excl:
+            continue
+        n += 1
+        try:
+            at_nan = bool(ev(iff.test, {k: nan for k in psf_attrs}))
+            at_pos = bool(ev(iff.test, {k: 30.0 for k in psf_attrs}))
+        except Unknown as u:
+            ctx.unknown_site(rule, rs, "psf exclusion test %s not "
+                             "interpreted (%s)" % (norm(iff.test, 50), u),
+                             node=iff)
+            continue
+        ctx.check(rule, rs, "psf exclusion test " + norm(iff.test, 60),
+                  not at_nan and not at_pos,
+                  "the test excludes a source whose psf is %s: sources from "
+                  "a catalogue without psf columns (psf = nan) must be kept "
+                  "-- their beam is taken from the image" %
+                  ("unknown (nan)" if at_nan else "positive"), node=iff)
+    ctx.floor(rule, n, 3, "rescale statements and psf exclusion tests of "
+              "resize")
